@@ -2221,6 +2221,16 @@ std::vector<VertexHandle> TopologyKernel::get_halfface_vertices(HalfFaceHandle h
 
 std::vector<VertexHandle> TopologyKernel::get_halfface_vertices(HalfFaceHandle hfh, HalfEdgeHandle heh) const
 {
+    // the start vertex alone does not say that the halfedge lies on the halfface
+    // (the opposite halfedge, or a halfedge of a neighbouring face, starts at
+    // a vertex of the halfface as well)
+    bool on_halfface = false;
+    for (const auto &h: halfface(hfh).halfedges()) {
+        if (h == heh) {on_halfface = true; break;}
+    }
+    if (!on_halfface) {
+        return {};
+    }
     return get_halfface_vertices(hfh, from_vertex_handle(heh));
 }
 
